@@ -370,6 +370,8 @@ type eSearchResult struct {
 	WallS           float64          `json:"wall_s"`
 	PrunedViolating int64            `json:"states_not_expanded_because_violating"`
 	viols           []eViol
+	violCount       map[string]int64
+	violCtx         map[string]map[string]bool
 	samples         []eSample
 	paths           []string
 }
@@ -385,6 +387,8 @@ func eBFS(p *ePool, s *eSearch, logf func(string, ...interface{})) *eSearchResul
 	R := &eSearchResult{Seg: s.Seg, DepthBound: s.MaxDepth, Exhaustive: true,
 		Outcomes: map[string]int64{}, Stats: map[string]int64{}, Points: map[string]int64{}}
 	violSeen := map[string]bool{}
+	R.violCount = map[string]int64{}
+	R.violCtx = map[string]map[string]bool{}
 	absorb := func(r *eRes) {
 		for k, v := range r.Stats {
 			if k == "max_dirty_pages" {
@@ -399,6 +403,15 @@ func eBFS(p *ePool, s *eSearch, logf func(string, ...interface{})) *eSearchResul
 			R.Points[k] += v
 		}
 		for _, v := range r.Viols {
+			R.violCount[v.Key]++
+			if R.violCtx[v.Key] == nil {
+				R.violCtx[v.Key] = map[string]bool{}
+			}
+			if len(v.Ops) > 0 {
+				R.violCtx[v.Key][v.Ops[len(v.Ops)-1].K] = true
+			} else {
+				R.violCtx[v.Key]["open"] = true
+			}
 			if !violSeen[v.Key] {
 				violSeen[v.Key] = true
 				R.viols = append(R.viols, v)
